@@ -184,7 +184,21 @@ func (d *decoder) peekLST(pos int) bool {
 }
 
 func (d *decoder) applyLST(v model.Value, pos int) error {
-	decl := TableDecl{Pos: pos}
+	newTab, decl, err := LSTFromValue(v, d.tab, d.opt.Catalog)
+	decl.Pos = pos
+	if err != nil {
+		return d.errf(Invalid, pos, "%v", err)
+	}
+	d.tab = newTab
+	d.res.Tables = append(d.res.Tables, newTab)
+	d.res.Decls = append(d.res.Decls, decl)
+	return nil
+}
+
+// LSTFromValue interprets a decoded $ion_symbol_table struct against the
+// current table cur and returns the table it puts in force.
+func LSTFromValue(v model.Value, cur *SymTab, cat Catalog) (*SymTab, TableDecl, error) {
+	decl := TableDecl{}
 	var impVal, symVal *model.Value
 	if !v.IsNull {
 		for i := range v.Fields {
@@ -218,57 +232,51 @@ func (d *decoder) applyLST(v model.Value, pos int) error {
 			}
 		}
 	}
-	var newTab *SymTab
 	if impVal != nil && impVal.Kind == model.Symbol && !impVal.IsNull && impVal.Sym.Known && impVal.Sym.Text == "$ion_symbol_table" {
 		decl.Append = true
-		newTab = d.tab.Append(decl.Symbols)
-	} else {
-		if impVal != nil && impVal.Kind == model.List && !impVal.IsNull {
-			decl.HasImports = true
-			for _, e := range impVal.Elems {
-				if e.Kind != model.Struct || e.IsNull {
-					continue
-				}
-				imp := Import{Version: 1, MaxID: -1}
-				name := ""
-				for _, f := range e.Fields {
-					if !f.Name.Known {
-						continue
-					}
-					switch f.Name.Text {
-					case "name":
-						if f.Val.Kind == model.String && !f.Val.IsNull {
-							name = f.Val.Text
-						}
-					case "version":
-						if f.Val.Kind == model.Int && !f.Val.IsNull && f.Val.Int.IsInt64() && f.Val.Int.Int64() >= 1 && f.Val.Int.Int64() < math.MaxInt32 {
-							imp.Version = int(f.Val.Int.Int64())
-						}
-					case "max_id":
-						if f.Val.Kind == model.Int && !f.Val.IsNull && f.Val.Int.Sign() >= 0 && f.Val.Int.IsInt64() && f.Val.Int.Int64() < 1<<24 {
-							imp.MaxID = int(f.Val.Int.Int64())
-						} else if f.Val.Kind == model.Int {
-							decl.Ambiguous = true
-						}
-					}
-				}
-				if name == "" || name == "$ion" {
-					continue
-				}
-				imp.Name = name
-				decl.Imports = append(decl.Imports, imp)
-			}
-		}
-		t, err := BuildLocal(decl.Imports, decl.Symbols, d.opt.Catalog)
-		if err != nil {
-			return d.errf(Invalid, pos, "%v", err)
-		}
-		newTab = t
+		return cur.Append(decl.Symbols), decl, nil
 	}
-	d.tab = newTab
-	d.res.Tables = append(d.res.Tables, newTab)
-	d.res.Decls = append(d.res.Decls, decl)
-	return nil
+	if impVal != nil && impVal.Kind == model.List && !impVal.IsNull {
+		decl.HasImports = true
+		for _, e := range impVal.Elems {
+			if e.Kind != model.Struct || e.IsNull {
+				continue
+			}
+			imp := Import{Version: 1, MaxID: -1}
+			name := ""
+			for _, f := range e.Fields {
+				if !f.Name.Known {
+					continue
+				}
+				switch f.Name.Text {
+				case "name":
+					if f.Val.Kind == model.String && !f.Val.IsNull {
+						name = f.Val.Text
+					}
+				case "version":
+					if f.Val.Kind == model.Int && !f.Val.IsNull && f.Val.Int.IsInt64() && f.Val.Int.Int64() >= 1 && f.Val.Int.Int64() < math.MaxInt32 {
+						imp.Version = int(f.Val.Int.Int64())
+					}
+				case "max_id":
+					if f.Val.Kind == model.Int && !f.Val.IsNull && f.Val.Int.Sign() >= 0 && f.Val.Int.IsInt64() && f.Val.Int.Int64() < 1<<24 {
+						imp.MaxID = int(f.Val.Int.Int64())
+					} else if f.Val.Kind == model.Int {
+						decl.Ambiguous = true
+					}
+				}
+			}
+			if name == "" || name == "$ion" {
+				continue
+			}
+			imp.Name = name
+			decl.Imports = append(decl.Imports, imp)
+		}
+	}
+	t, err := BuildLocal(decl.Imports, decl.Symbols, cat)
+	if err != nil {
+		return nil, decl, err
+	}
+	return t, decl, nil
 }
 
 // varUint reads a VarUInt at pos (limit end).
